@@ -172,6 +172,7 @@ func (mr March) Run(c choice.Chooser, opt sim.Options) sim.Result {
 		return map[string]any{"call": desc, "policy": out.PolicyName, "schedule": schedule(out), "sequential_triangles": len(want), "parallel_triangles": len(got)}
 	}
 	res.Sig = desc + "/" + out.Signature()
+	res.DetHash = desc + "/" + out.Decisions
 	res.Cells = []string{fmt.Sprintf("march|w%d|blocks%d|surface=%v", w, nblocks, len(want) > 0)}
 	res.Nontrivial = interleaved(out)
 	if res.Nontrivial {
